@@ -49,25 +49,15 @@ def rebuild(desc):
     return S.rebuild_apply(desc)
 
 
-def classify(case):
-    """Known upstream limitation: a replace-around step whose insertion point lies inside a CLOSED node of
-    its slice puts the gap content there without validating that node (insert_into drops `parent`)."""
-    d = case.desc
-    if d.get("case") != "apply":
-        return None
-    sd = d["obs"]["step"]
-    if sd["type"] != "ReplaceAroundStep" or d["obs"]["result"][0] != "ok":
-        return None
-    sc = gen.family(d["family"])
-    doc = Node.from_json(sc, d["doc"])
-    st = S.step_from_desc(sc, sd)
+def _closed_wrapper(doc, st):
+    """does the replace-around step [st] put its gap content into a CLOSED node of its slice that cannot hold it?"""
     try:
         gap = doc.slice(st.gap_from, st.gap_to)
         inserted = st.slice.insert_at(st.insert, gap.content)
     except Exception:  # noqa: BLE001
-        return None
+        return False
     if inserted is None:
-        return None
+        return False
     # is there an invalid node in the inserted slice that is not on its open sides?
     def closed_invalid(frag, open_l, open_r):
         n = frag.child_count
@@ -79,14 +69,52 @@ def classify(case):
                 try:
                     ch.check()
                 except ValueError:
-                    # invalid closed node: was it already invalid in the step's own slice?
                     return True
             elif closed_invalid(ch.content, max(ol - 1, 0), max(orr - 1, 0)):
                 return True
         return False
-    if not closed_invalid(inserted.content, inserted.open_start, inserted.open_end):
+    return closed_invalid(inserted.content, inserted.open_start, inserted.open_end)
+
+
+def _valid(doc):
+    try:
+        doc.check()
+        return True
+    except ValueError:
+        return False
+
+
+def classify(case):
+    """Known upstream limitation: a replace-around step whose insertion point lies inside a CLOSED node of
+    its slice puts the gap content there without validating that node (insert_into drops `parent`).
+    In a recorded history the finding is the FIRST step that turns a valid document into an invalid one
+    (everything after it starts from an invalid document, outside the property's quantifier)."""
+    d = case.desc
+    sc = gen.family(d["family"])
+    doc = Node.from_json(sc, d["doc"])
+    if d.get("case") == "history":
+        for sd in d["steps"]:
+            st = S.step_from_desc(sc, sd["step"])
+            if not _valid(doc):
+                return None
+            try:
+                r = st.apply(doc)
+            except Exception:  # noqa: BLE001
+                return None
+            if r.doc is None:
+                continue
+            if not _valid(r.doc):
+                if sd["step"]["type"] == "ReplaceAroundStep" and _closed_wrapper(doc, st):
+                    return "C01-replace-around-closed-wrapper"
+                return None
+            doc = r.doc
         return None
-    # the step's own payload must have been valid (otherwise the case is outside the quantifier anyway)
-    if closed_invalid(st.slice.content, st.slice.open_start, st.slice.open_end):
-        return "C01-replace-around-closed-wrapper"
+    if d.get("case") != "apply":
+        return None
+    sd = d["obs"]["step"]
+    if sd["type"] != "ReplaceAroundStep" or d["obs"]["result"][0] != "ok":
+        return None
+    st = S.step_from_desc(sc, sd)
+    if not _closed_wrapper(doc, st):
+        return None
     return "C01-replace-around-closed-wrapper"
